@@ -112,7 +112,7 @@ def generate(r, tier, prop):
                 spec["meta_only"] = True  # metaclass=DBCMeta used directly, DBC not inherited
             if not bases and spec.get("dbc", True) and r.random() < 0.15:
                 spec["builtin"] = "list"  # derives from a built-in with its own slot-wrapper __init__ and defines no constructor
-            info = {"bases": bases, "own": {}}
+            info = {"bases": bases, "own": {}, "dbc": bool(spec.get("dbc", True))}
             classes[name] = info
             if (not bases and not spec.get("builtin")) or (bases and not any_builtin(bases) and r.random() < 0.4):
                 spec["init"] = {"super": r.choice(["first", "last"]) if bases else "first"}
@@ -256,6 +256,17 @@ def generate(r, tier, prop):
             spec = {"name": "g%d" % i, "pre": [], "post": [], "snaps": [{}], "force_snaps": True}
             steps.append({"op": "bad", "kind": "snap_no_post", "spec": spec, "expect": "ValueError"})
             continue
+        if classes and r.random() < 0.1:
+            # a class re-created from its own namespace (dataclass(slots=True) style); the copy is then decorated further
+            # (classes without the metaclass share their lists by reference by design: only contract classes are re-created)
+            srcs_ = sorted(c for c in classes if classes[c].get("dbc", True))
+            if srcs_:
+                src_ = r.choice(srcs_)
+                cl_ = "C%d" % i
+                steps.append({"op": "clone", "of": src_, "name": cl_})
+                if r.random() < 0.8:
+                    steps.append({"op": "late_inv", "unit": cl_, "check_on": r.choice(inv_mix)})
+                continue
         if classes and r.random() < 0.25:
             # the invariant decorator applied to a class that already exists - possibly after subclasses of it were created
             c_ = r.choice(sorted(classes))
@@ -544,7 +555,7 @@ def execute(scn, want):
         touched = set()  # members changed after their class was created (late decoration, helper appends)
         borrowed_plain = set()  # classes without the metaclass a member of which a contract class has borrowed (finding D19)
         inv_stale = set()  # classes an ancestor of which was given an invariant after they had been created
-        D19 = ":member-borrowed-from-a-class-without-the-metaclass"
+        D19 = ":borrowed-member-whose-checker-the-metaclass-never-processed"
         for si, step in enumerate(scn.get("steps") or []):
             stats["steps"] += 1
             name, exc, announced = m.define(step)
@@ -580,7 +591,16 @@ def execute(scn, want):
                 probe("valid_definition_rejected_" + type(exc).__name__)
                 name = None
             # ---------------- C18.R1: registration hook
-            if want == "C18":
+            if want == "C18" and op == "clone":
+                if exc is None:
+                    nc_ = m.world.classes.get(step["name"])
+                    if isinstance(nc_, icontract_meta()):
+                        ok_classes += 1
+                    if isinstance(nc_, icontract_meta()) and (len(announced) != 1 or announced[0] is not nc_):
+                        violations.append({"rule": "C18.R1", "classifier": "re-created-class-announced-%d-times" % len(announced), "detail": {"step": si, "class": step["name"]}})
+                    if not isinstance(nc_, icontract_meta()) and announced:
+                        violations.append({"rule": "C18.R1", "classifier": "plain-class-announced", "detail": {"step": si, "class": step["name"]}})
+            elif want == "C18":
                 if op in ("class", "bad") and exc is None and name is not None and name in m.world.classes and not isinstance(m.world.classes[name], icontract_meta()):
                     # a plain class (not created through the inheriting metaclass) is not announced
                     if announced:
@@ -610,7 +630,9 @@ def execute(scn, want):
                 for ms_ in step["spec"].get("methods", ()):
                     if ms_.get("kind") == "alias":
                         src_ = m.world.classes.get(ms_["of"].split(".")[0])
-                        if src_ is not None and not isinstance(src_, icontract_meta()) and src_ not in m.world.classes[name].__mro__:
+                        never_seen = src_ is not None and (not isinstance(src_, icontract_meta()) or ms_["of"] in touched)
+                        if never_seen and (src_ not in m.world.classes[name].__mro__ or ms_.get("wrapped")):
+                            # the lender is a class without the metaclass, or the member got its checker only after the lender's creation
                             borrowed_plain.add(ms_["of"].split(".")[0])
             # ---------------- observe earlier definitions
             changed = []
@@ -651,7 +673,7 @@ def execute(scn, want):
                             {
                                 "rule": "C17.R2" if op == "bad" else "C17.R1",
                                 "classifier": "%s:%s:lists:%s:%s%s"
-                                % (op, _relation(m, name, old), which if which.startswith("__inv") else which.split(".")[-1], "gained" if gained else "lost", D19 if old in borrowed_plain else ""),
+                                % (op, _relation(m, name, old), which if which.startswith("__inv") else which.split(".")[-1], "gained" if gained else "lost", D19 if (old in borrowed_plain or any(x_ in borrowed_plain for x_ in _ancestors(m, old))) else ""),
                                 "detail": {"step": si, "defined": name, "observed": old, "list": which, "gained": gained, "lost": lost},
                             }
                         )
@@ -679,7 +701,7 @@ def execute(scn, want):
                         violations.append(
                             {
                                 "rule": "C17.R1",
-                                "classifier": "foreign-contract-decides-verdict:%s:%s%s" % (_relation(m, owner, old), "inv" if "/inv" in k else "contract", D19 if old in borrowed_plain else ""),
+                                "classifier": "foreign-contract-decides-verdict:%s:%s%s" % (_relation(m, owner, old), "inv" if "/inv" in k else "contract", D19 if (old in borrowed_plain or any(x_ in borrowed_plain for x_ in _ancestors(m, old))) else ""),
                                 "detail": {"step": si, "observed": old, "probe": k, "verdict_with_all_true": exp, "verdict_now": now, "contract_of": owner},
                             }
                         )
@@ -700,7 +722,7 @@ def execute(scn, want):
                         {
                             "rule": rule,
                             "classifier": "%s:%s:%s:%s%s"
-                            % (op, rel, "ctor" if what == "new" else "member", "inv" if "/inv" in site else ("pre" if "/pre" in site else ("post" if "/post" in site else "ok")), D19 if old in borrowed_plain else ""),
+                            % (op, rel, "ctor" if what == "new" else "member", "inv" if "/inv" in site else ("pre" if "/pre" in site else ("post" if "/post" in site else "ok")), D19 if (old in borrowed_plain or any(x_ in borrowed_plain for x_ in _ancestors(m, old))) else ""),
                             "detail": {"step": si, "defined": name, "observed": old, "probe": k, "verdict_when_defined": was, "verdict_now": now, "lists_changed": old in changed},
                         }
                     )
